@@ -1,0 +1,74 @@
+//go:build verif
+
+// Contracts for package http (go-fdo), checked by /verif/govc (see
+// /verif/DESIGN.md). Comment-only file: it adds nothing to any build.
+package http
+
+// ---- server side: token lifecycle (C08) and tunnel (C05) --------------------------------
+
+//@ func http.Handler.ServeHTTP
+//@   props C08 C10(sweep)
+//@   sweep bounds,make,nilmem
+//@   requires @tokens h.Tokens != nil
+//@   callsites NewToken 1
+//@   callassert NewToken#1: @firstmsg msgType == 10 || msgType == 20 || msgType == 30 || msgType == 60
+//@   callassert NewToken#1: @proto arg2 == ite(msgType == 10, 1, ite(msgType == 20, 2, ite(msgType == 30, 3, 4)))
+
+// every TO2 message after ProveDevice (64 < type < 255) reaches the responder
+// only as the plaintext returned by the session's Decrypt; a request that is
+// rejected here (size, missing session, decrypt failure) invalidates the token
+//@ func http.Handler.handleRequest
+//@   props C05 C08 C02(functional) C10(sweep)
+//@   sweep bounds,make,nilmem
+//@   callsites writeResponse 1
+//@   assume wroteerr(w) != True() && invalidated(ctx) != True()
+//@   callassert writeResponse#1: @tunnel 64 < msgType && msgType < 255 ==> PlainOf(BufOf(InnerOf(u(arg4)))) == SessOf(u(ctx))
+//@   callassert writeResponse#1: @args arg3 == msgType && u(arg5) == u(resp) && u(arg1) == u(ctx)
+//@   callassert writeResponse#1: @bounded h.MaxContentLength >= 0 ==> r.ContentLength >= 0 && imp(h.MaxContentLength > 0, r.ContentLength <= h.MaxContentLength) && imp(h.MaxContentLength == 0, r.ContentLength <= 65535)
+//@   ensures @inval wroteerr(w) == True() ==> invalidated(ctx) == True()
+
+// error responses, final messages and every failure while producing the
+// response invalidate the token; responses 65..254 leave only encrypted
+//@ func http.Handler.writeResponse
+//@   props C05 C08 C10(sweep)
+//@   sweep bounds,make,nilmem
+//@   callsites Respond 1
+//@   assume wroteerr(w) != True() && invalidated(ctx) != True()
+//@   callassert Encode#1: @tunnel ? 64 < respType && respType < 255 ==> EncryptedBy(u(unwrap(arg1))) == SessOf(u(ctx))
+//@   ensures @inval wroteerr(w) == True() ==> invalidated(ctx) == True()
+//@   ensures @final ? respType == 255 || respType == 13 || respType == 23 || respType == 33 || respType == 71 ==> invalidated(ctx) == True()
+
+//@ func http.Handler.invalidateToken
+//@   props C08
+//@   sweep bounds,nilmem
+//@   modifies nothing
+//@   ghostset invalidated(ctx) := True()
+//@   callsites InvalidateToken 1
+
+//@ func http.writeErr
+//@   nopaths
+//@   modifies nothing
+//@   ghostset wroteerr(w) := True()
+
+//@ func http.Handler.handleError
+//@   props C08
+//@   sweep bounds
+
+//@ func http.Handler.handleError$1
+//@   props C08 C10(sweep)
+//@   sweep bounds,make
+//@   ensures @inval len(token) > 0 ==> invalidated(ctx) == True()
+
+// ---- client side (C05) ---------------------------------------------------------------------------
+//@ func http.Transport.Send
+//@   props C05 C10(sweep)
+//@   sweep bounds,make,nilmem
+//@   callassert Encode#1: @tunnel ? sess != nil ==> EncryptedBy(u(unwrap(arg1))) == u(sess)
+//@   callassert handleResponse#1: @sess u(arg2) == u(sess)
+
+//@ func http.Transport.handleResponse
+//@   props C05 C10(sweep)
+//@   sweep bounds,make,nilmem
+//@   requires @request resp.Request != nil && resp.Request.URL != nil
+//@   ensures @tunnel ? err == nil && sess != nil && msgType != 255 ==> PlainOf(BufOf(InnerOf(u(result1)))) == u(sess)
+//@   ensures @bounded ? err == nil && old(t.MaxContentLength) >= 0 ==> old(resp.ContentLength) >= 0 && imp(old(t.MaxContentLength) > 0, old(resp.ContentLength) <= old(t.MaxContentLength)) && imp(old(t.MaxContentLength) == 0, old(resp.ContentLength) <= 65535)
